@@ -879,6 +879,17 @@ private:
       {
         try { c.listenerReady->set_value(false); } catch (...) {}
       }
+      if (c.t == CmdType::Connect || c.t == CmdType::Via)
+      {
+        // connect()/connectViaListener() has already handed this id to its caller
+        decltype(_cbs.onClose) closeCb;
+        { std::lock_guard<std::mutex> g(_cbMutex); closeCb = _cbs.onClose; }
+        if (closeCb)
+        {
+          closeCb(c.t == CmdType::Connect ? c.c.sid : c.v.sid,
+                  TransportErrorInfo{TransportError::ShuttingDown, "shutdown"});
+        }
+      }
     }
     if (_epollFd >= 0)
     {
